@@ -55,6 +55,10 @@ class WriteNdarrayCallee(Contract):
             old = None
         ctx.assume(z3.ForAll([k], z3.Implies(z3.And(k >= 0, k < arr.n),
                                              nc.sel(off + k) == arr.sel(k))))
+        # the same fact indexed by the absolute position (friendlier to E-matching)
+        j = z3.Int("j!wn")
+        ctx.assume(z3.ForAll([j], z3.Implies(z3.And(j >= off, j < off + arr.n),
+                                             nc.sel(j) == arr.sel(j - off))))
         if not nc.item_shape and nc.kind in ("F", "int", "real"):
             # summaries (SInv), see C20
             s = npmodel.summary(ctx, nc)
